@@ -735,3 +735,54 @@ Proof.
   destruct (values_of K_CONNECTION F) as [|c0 cs] eqn:Ec; [discriminate Hconn|].
   rewrite Hconn. cbn [body_reader switch_body b_data b_end berr_clean r_trailer_declared]. reflexivity.
 Qed.
+
+(* ====================================================================== *)
+(* a response that was cut is never delivered as a complete one           *)
+(* ====================================================================== *)
+
+(* If the bytes [s ++ ext] are one complete self-delimited response (declared length or
+   chunked: ends cleanly, nothing left over) and the connection delivers only [s] (the peer
+   closed early, ext <> []): whatever the cut point - in the body, in the last-chunk line,
+   between it and the trailer section, inside a trailer line, inside the final CRLF - the
+   reader does NOT report a clean end of the message. *)
+Theorem cut_never_complete meth bufsize s ext r b :
+  parse_response meth bufsize (s ++ ext) = Accepted r b ->
+  b_end b = BOk -> b_rest b = [] -> r_framing r <> FrUntilClose -> ext <> [] ->
+  forall r' b', parse_response meth bufsize s = Accepted r' b' -> b_end b' <> BOk.
+Proof.
+  intros Hfull He Hrest Hfr Hext r' b' Hcut Hok.
+  assert (Hr : r' = r).
+  { unfold parse_response in Hcut, Hfull.
+    destruct (read_response_head meth bufsize s) as [e|[r0 rest0]] eqn:Eh; [discriminate|].
+    inversion Hcut; subst. rewrite (read_response_head_stable _ _ _ _ _ ext Eh) in Hfull.
+    inversion Hfull; subst. reflexivity. }
+  subst r'.
+  pose proof (parse_deterministic_prefix meth bufsize s r b' ext Hcut Hok Hfr) as P.
+  rewrite Hfull in P. inversion P as [Hb]. rewrite Hb in Hrest.
+  destruct b'; cbn in Hrest. apply app_eq_nil in Hrest as [_ Hx]. contradiction.
+Qed.
+
+(* ... in particular for every proper prefix of a rendered chunked response with trailers *)
+Corollary chunked_cut_detected meth bufsize code reason fs tfs v cs l0 k :
+  (100 <= code <= 999)%Z -> reason_ok reason = true -> fields_ok fs ->
+  pragma_neutral (map field_of fs) ->
+  is_head meth = false -> body_allowed_for_status code = true ->
+  values_of K_TE (map field_of fs) = [v] -> bytes_eqb (to_lower v) (bs "chunked") = true ->
+  no_field K_CL (map field_of fs) ->
+  existsb bad_trailer_key (declared_keys (map field_of fs)) = false ->
+  chunks_ok bufsize 0 cs -> size_line_ok bufsize l0 0 ->
+  fields_ok tfs -> trailer_fits bufsize tfs ->
+  let wire := render_head code reason fs ++ H1Render.render_chunks cs ++ l0 ++ CRLF ++
+              render_wfields tfs ++ CRLF ++ [] in
+  k < length wire ->
+  forall r' b', parse_response meth bufsize (firstn k wire) = Accepted r' b' -> b_end b' <> BOk.
+Proof.
+  intros Hc Hr Hf Hp Hh Ha Hte Hv Hcl Hbad Hcs Hl0 Htf Hfit wire Hk r' b' Hcut.
+  pose proof (h1_chunked_round_trip meth bufsize code reason fs Hc Hr Hf Hp tfs v cs l0 []
+                Hh Ha Hte Hv Hcl Hbad Hcs Hl0 Htf Hfit) as P.
+  fold wire in P. rewrite <- (firstn_skipn k wire) in P.
+  eapply (cut_never_complete meth bufsize (firstn k wire) (skipn k wire)); try exact P; try reflexivity.
+  - cbn. discriminate.
+  - intros E. pose proof (skipn_length k wire) as L. rewrite E in L. cbn [length] in L. lia.
+  - exact Hcut.
+Qed.
